@@ -690,3 +690,4 @@ CHECKS["C20"]["required_classes"]["all"] += ["host-wall-clock-stepped-back-while
 CHECKS["C17"]["required_classes"]["all"] += ["accepted-password-with-separator-byte:parts-probed"]
 CHECKS["C09"]["jobs"].append(J("dir-identity", VTRACE, "TestC09DirIdentity", {"shards": 4, "checks": 12}, {"shards": 16, "checks": 300}))
 CHECKS["C09"]["required_classes"]["all"] += ["acknowledged-change-after-the-base-directory-was-replaced:relink"]
+CHECKS["C15"]["required_classes"]["all"] += ["traced-password-check-of-an-upgradeable-record-with-upgrades-off"]
